@@ -58,7 +58,7 @@ MANIFEST = dict(
     design='DESIGN.md §5 C15',
     technique='Lean 4 theorems over an executable state-machine model + differential correspondence with real BIOGEME runs and crash injection at recorded primitives and at executed lines',
     note='Partial: CPython float repr/parse round trip and OS rename atomicity are trusted; f and the finite-gradient flag come from the engine; '
-    'files larger than one I/O buffer are checked by the oracle only (the model has no automatic flush); known finding FC15-boot masks what follows a bootstrap in the same session.',
+    'files larger than one I/O buffer are checked by the oracle only (the model has no automatic flush); finding FC15-boot (bootstrap iterates overwrote the file) is repaired in /repo by feecadb; its matcher suppresses nothing any more.',
 )
 
 TRUSTED = [
